@@ -772,7 +772,17 @@ func (c *Conn) finish(r *Ctx, stream uint32, err error) {
 		atomic.AddInt32(&c.openStreams, -1)
 	}
 
-	c.deletePending(stream)
+	// dispatch already holds r, and r is the request a body still pending on
+	// this stream belongs to: deletePending would lock it a second time and
+	// the read loop would never come back.
+	c.sendLck.Lock()
+	pb := c.pending[stream]
+	delete(c.pending, stream)
+	c.sendLck.Unlock()
+
+	if pb != nil {
+		c.closeBodyStream(pb)
+	}
 
 	r.markFinished()
 	r.resolve(err)
@@ -1015,6 +1025,8 @@ func (c *Conn) writeRequest(ctx *Ctx) error {
 
 	if err != nil {
 		c.setLastErr(err)
+		// deletePending takes the Ctx itself, so hand it back first.
+		release()
 		// if we had any error, remove it from the reqQueued.
 		c.dequeueReq(id)
 		c.deletePending(id)
